@@ -155,6 +155,69 @@ def container_validator_stream(ctx, res, n):
                     res.violate("C06:container-validator-changed-state", "an assignment rejected by the field's own validator changed the container held before", case)
 
 
+def moved_item_stream(ctx, res, n):
+    """a rejected single-element operation whose item is a configuration object that already sits in another list (of this or of a
+    second live configuration): nothing may change anywhere — neither the target list nor the list the item came from"""
+    import cincoconfig as cc
+    from cincoconfig.support import validator as schema_validator
+    rng = ctx.rng
+    for i in range(n):
+        item = cc.Schema()
+        item.lo = cc.IntField(default=1)
+        item.hi = cc.IntField(default=5)
+
+        @schema_validator(item)
+        def lo_le_hi(cfg):
+            if cfg.lo is not None and cfg.hi is not None and cfg.lo > cfg.hi:
+                raise ValueError("lo > hi")
+        other = cc.Schema()
+        other.name = cc.StringField(default="n")
+        typed = rng.random() < 0.5
+        it = cc.make_type(item, "Range%d" % i) if typed else item
+        s = cc.Schema()
+        s.pools.primary = cc.ListField(it, default=lambda: [])
+        s.pools.secondary = cc.ListField(it, default=lambda: [])
+        s.names = cc.ListField(other, default=lambda: [])
+        a, b = s(), s()
+        for c in (a, b):
+            c.pools.primary = [{"lo": j, "hi": j + 3} for j in range(rng.randint(2, 4))]
+            c.pools.secondary = [{"lo": 0, "hi": 1}]
+            c.names = [{"name": "x"}]
+        giver = rng.choice([a, b])
+        src = giver.pools.primary
+        victim = src[rng.randrange(len(src))]
+        why = rng.choice(["other-schema", "fails-validator"])
+        if why == "fails-validator":
+            victim.lo = 9                      # each field value is fine on its own; the item as a whole no longer is
+            victim.hi = 3
+            target = a.pools.secondary
+        else:
+            target = a.names
+        mode = rng.choice(["append", "insert", "setidx"])
+        ids = C.Ids()
+        before = [C.canon_state(C.dump_cfg(c, ids), {}) for c in (a, b)]
+        members = [[id(x) for x in lst] for lst in (a.pools.primary, a.pools.secondary, a.names, b.pools.primary, b.pools.secondary, b.names)]
+        try:
+            if mode == "append":
+                target.append(victim)
+            elif mode == "insert":
+                target.insert(0, victim)
+            else:
+                target[0] = victim
+            raised = False
+        except Exception:  # noqa
+            raised = True
+        after = [C.canon_state(C.dump_cfg(c, ids), {}) for c in (a, b)]
+        members2 = [[id(x) for x in lst] for lst in (a.pools.primary, a.pools.secondary, a.names, b.pools.primary, b.pools.secondary, b.names)]
+        case = {"stream": "moved-item", "why": why, "mode": mode, "typed": typed, "from_other_configuration": giver is b}
+        res.case(stable([why, mode, typed, giver is b, i]) if raised else None, kind="moved-item:%s:%s" % (why, "rejected" if raised else "accepted"))
+        if raised and (before != after or members != members2):
+            res.violate("C06:rejected-list-op-changed-another-list", "a rejected insertion / replacement of a configuration that sits in another list changed that list",
+                        dict(case, lengths_before=[len(m) for m in members], lengths_after=[len(m) for m in members2]))
+        if not raised and why == "other-schema":
+            res.violate("C06:foreign-item-accepted", "a configuration of another schema was accepted as a list item", case)
+
+
 def P_same(a, b):
     import props.c05 as c05
     if isinstance(a, int):
@@ -209,6 +272,7 @@ def run(ctx, n_quick=200, n_thorough=6000):
     P.run_stream(ctx, res, "C06", ctx.n(n_quick, n_thorough), oracle, gen_ops=gen_ops)
     proxy_stream(ctx, res, ctx.n(60, 2000))
     container_validator_stream(ctx, res, ctx.n(40, 1500))
+    moved_item_stream(ctx, res, ctx.n(60, 2000))
     doc_stream(ctx, res, ctx.n(3, 60))
     return res
 
